@@ -145,7 +145,7 @@ Proof.
     assert (HC1 : Consistent E c1 /\ wf_contact E c1).
     { destruct b.
       - destruct (after_modifier E fresh m c c1 e1 Hwf Hm HA) as [K1 [_ [_ K4]]]. split; assumption.
-      - destruct (after_noop_modifier E fresh m c c1 e1 Hwf Hm HA) as [_ [K2 K3]]. split; [apply K2; exact HC | exact K3]. }
+      - destruct (after_noop_modifier E fresh m c c1 e1 Hwf Hm HA) as [_ [K2 [K3 _]]]. split; [apply K2; exact HC | exact K3]. }
     destruct HC1 as [HC1 W1]. eapply IH; eassumption.
 Qed.
 
@@ -456,15 +456,119 @@ Proof.
   exact (HC g Hall Huq).
 Qed.
 
+(* what the two-environment sprint satisfies WITHOUT any agreement of the evaluators: only the group lists are shared *)
+Definition groups_shared (Es Em : menv) : Prop :=
+  all_groups Es = all_groups Em /\ (forall g, uses_query Es g = uses_query Em g).
+
+Lemma wf_shared : forall Es Em c, all_groups Es = all_groups Em -> (wf_contact Es c <-> wf_contact Em c).
+Proof. intros Es Em c H. unfold wf_contact. rewrite H. tauto. Qed.
+
+(* C03 for the engine as it stands: any interleaving of contact writes replays, whatever the two evaluators say *)
+Theorem replay_steps2 : forall Es Em ss c c' evs,
+  all_groups Es = all_groups Em ->
+  wf_contact Em c -> Forall (step_wf Em) ss ->
+  run_steps2 Es Em ss c = (c', evs) ->
+  same_contact (replay evs c) c' /\ wf_contact Em c'.
+Proof.
+  intros Es Em ss. induction ss as [|s ss IH]; intros c c' evs Hag Hwf Hss H; cbn [run_steps2] in H.
+  - inversion H; subst. split; [apply same_refl | exact Hwf].
+  - inversion Hss as [|? ? Hs Hss']; subst.
+    destruct (run_step2 Es Em s c) as [c1 e1] eqn:H1. destruct (run_steps2 Es Em ss c1) as [c2 e2] eqn:H2.
+    inversion H; subst c' evs.
+    assert (Hstep : same_contact (replay e1 c) c1 /\ wf_contact Em c1).
+    { destruct s as [fresh m| |c0|t].
+      - exact (run_step_spec Em (SApply fresh m) c c1 e1 Hwf Hs H1).
+      - destruct (run_step_spec Es SEnsure c c1 e1 (proj2 (wf_shared Es Em c Hag) Hwf) I H1) as [S W].
+        split; [exact S | exact (proj1 (wf_shared Es Em c1 Hag) W)].
+      - exact (run_step_spec Em (SRefresh c0) c c1 e1 Hwf Hs H1).
+      - exact (run_step_spec Em (SSetInput t) c c1 e1 Hwf Hs H1). }
+    destruct Hstep as [S1 W1]. destruct (IH c1 c2 e2 Hag W1 Hss' H2) as [S2 W2].
+    split; [|exact W2]. rewrite replay_app. eapply same_trans; [apply replay_same; exact S1 | exact S2].
+Qed.
+
+Lemma run_steps2_app : forall Es Em a b c, run_steps2 Es Em (a ++ b) c =
+  let '(c1, e1) := run_steps2 Es Em a c in let '(c2, e2) := run_steps2 Es Em b c1 in (c2, e1 ++ e2).
+Proof.
+  intros Es Em. induction a as [|s a IH]; intros b c; cbn [app run_steps2].
+  - destruct (run_steps2 Es Em b c) as [c2 e2]. reflexivity.
+  - destruct (run_step2 Es Em s c) as [c1 e1]. rewrite IH.
+    destruct (run_steps2 Es Em a c1) as [c2 e2]. destruct (run_steps2 Es Em b c2) as [c3 e3]. rewrite app_assoc. reflexivity.
+Qed.
+
+(* membership follows the re-evaluation that ran last: right for the merged environment if some action reported a
+   change after the session-level re-evaluation, else right for the session environment *)
+Lemma applies2_consistent : forall Es Em acts c c' evs,
+  wf_contact Em c -> Forall (fun fm => mod_wf Em (snd fm)) acts ->
+  Consistent Es c \/ Consistent Em c ->
+  run_steps2 Es Em (map (fun fm => SApply (fst fm) (snd fm)) acts) c = (c', evs) ->
+  (Consistent Es c' \/ Consistent Em c') /\ wf_contact Em c'.
+Proof.
+  intros Es Em. induction acts as [|[fresh m] acts IH]; intros c c' evs Hwf Hms HC H; cbn [map run_steps2] in H.
+  - inversion H; subst. split; assumption.
+  - inversion Hms as [|? ? Hm Hms']; subst. cbn [fst snd run_step2] in H, Hm.
+    destruct (apply Em fresh m c) as [[c1 e1] b] eqn:HA.
+    destruct (run_steps2 Es Em (map (fun fm => SApply (fst fm) (snd fm)) acts) c1) as [c2 e2] eqn:H2.
+    inversion H; subst c' evs.
+    assert (H1 : (Consistent Es c1 \/ Consistent Em c1) /\ wf_contact Em c1).
+    { destruct b.
+      - destruct (after_modifier Em fresh m c c1 e1 Hwf Hm HA) as [K1 [_ [_ K4]]]. split; [right; exact K1 | exact K4].
+      - destruct (after_noop_modifier Em fresh m c c1 e1 Hwf Hm HA) as [K1 [_ [K3 _]]]. split; [|exact K3].
+        destruct HC as [HC|HC]; [left | right]; eapply consistent_erase; eassumption. }
+    destruct H1 as [HC1 W1]. eapply IH; eassumption.
+Qed.
+
 Theorem after_sprint_two_env : forall Es Em k acts c c' evs,
-  groups_env_agree Es Em ->
+  groups_shared Es Em ->
   wf_contact Em c -> kind_wf Em k -> Forall (fun fm => mod_wf Em (snd fm)) acts ->
   run_sprint2 Es Em k acts c = (c', evs) ->
-  same_contact (replay evs c) c' /\ Consistent Em c' /\ Consistent Es c'.
+  same_contact (replay evs c) c'
+  /\ (Consistent Es c' \/ Consistent Em c')
+  /\ ((forall g, In g (all_groups Em) -> uses_query Em g = true -> matches Es g (qview c') = matches Em g (qview c'))
+      -> Consistent Es c' /\ Consistent Em c').
 Proof.
-  intros Es Em k acts c c' evs Hag Hwf Hk Hms H. unfold run_sprint2 in H. rewrite run_steps2_agree in H by exact Hag.
-  destruct (after_sprint Em k acts c c' evs Hwf Hk Hms H) as [R [C W]].
-  split; [exact R|]. split; [exact C | exact (consistent_agree Es Em c' Hag C)].
+  intros Es Em k acts c c' evs [Hag Hu] Hwf Hk Hms H. unfold run_sprint2 in H.
+  destruct (replay_steps2 Es Em _ c c' evs Hag Hwf (sprint_steps_wf Em k acts Hk Hms) H) as [R W]. split; [exact R|].
+  set (applies := map (fun fm => SApply (fst fm) (snd fm)) acts) in *.
+  assert (Hsplit : exists pre, sprint_steps k acts = pre ++ SEnsure :: match k with KStartEmpty | KResumeFailed => [] | _ => applies end
+                               /\ Forall (step_wf Em) pre).
+  { destruct k as [| |[t|]|[c0|] [t|]]; cbn [sprint_steps opt_step app]; fold applies.
+    - exists []. split; [reflexivity | constructor].
+    - exists []. split; [reflexivity | constructor].
+    - exists [SEnsure; SSetInput t]. split; [reflexivity | repeat constructor].
+    - exists [SEnsure]. split; [reflexivity | repeat constructor].
+    - exists [SRefresh c0; SSetInput t]. split; [reflexivity | constructor; [exact Hk | repeat constructor]].
+    - exists [SRefresh c0]. split; [reflexivity | constructor; [exact Hk | constructor]].
+    - exists [SSetInput t]. split; [reflexivity | repeat constructor].
+    - exists []. split; [reflexivity | constructor]. }
+  destruct Hsplit as [pre [Hs Hpre]]. rewrite Hs, run_steps2_app in H.
+  destruct (run_steps2 Es Em pre c) as [c1 e1] eqn:H1.
+  destruct (run_steps2 Es Em (SEnsure :: match k with KStartEmpty | KResumeFailed => [] | _ => applies end) c1) as [c2 e2] eqn:H2.
+  inversion H; subst c' evs.
+  destruct (replay_steps2 Es Em pre c c1 e1 Hag Hwf Hpre H1) as [_ W1].
+  cbn [run_steps2 run_step2] in H2. destruct (ensure_query_groups Es c1) as [c3 e3] eqn:H3.
+  destruct (run_steps2 Es Em (match k with KStartEmpty | KResumeFailed => [] | _ => applies end) c3) as [c4 e4] eqn:H4.
+  inversion H2; subst c2 e2.
+  destruct (ensure_spec Es c1 c3 e3 (proj2 (wf_shared Es Em c1 Hag) W1) H3) as [_ [W3 [C3 _]]].
+  apply (proj1 (wf_shared Es Em c3 Hag)) in W3.
+  assert (Hdis : Consistent Es c4 \/ Consistent Em c4).
+  { destruct k; [cbn in H4; inversion H4; subst; left; exact C3 | cbn in H4; inversion H4; subst; left; exact C3 | |];
+      exact (proj1 (applies2_consistent Es Em acts c3 c4 e4 W3 Hms (or_introl C3) H4)). }
+  split; [exact Hdis|].
+  intro Hpt.
+  assert (Hiff : Consistent Es c4 <-> Consistent Em c4).
+  { unfold Consistent, qualifies. rewrite Hag. split; intros HC g Hall Huq.
+    - rewrite <- (Hpt g Hall Huq). apply HC; [exact Hall | rewrite Hu; exact Huq].
+    - rewrite Hu in Huq. rewrite (Hpt g Hall Huq). apply HC; assumption. }
+  destruct Hdis as [HC|HC]; split; tauto.
+Qed.
+
+Corollary replay_sprint2 : forall Es Em k acts c c' evs,
+  all_groups Es = all_groups Em ->
+  wf_contact Em c -> kind_wf Em k -> Forall (fun fm => mod_wf Em (snd fm)) acts ->
+  run_sprint2 Es Em k acts c = (c', evs) -> same_contact (replay evs c) c'.
+Proof.
+  intros Es Em k acts c c' evs Hag Hwf Hk Hms H.
+  exact (proj1 (replay_steps2 Es Em _ c c' evs Hag Hwf (sprint_steps_wf Em k acts Hk Hms) H)).
 Qed.
 
 Definition with_matches (E : menv) (f : N -> contact -> bool) : menv :=
